@@ -114,7 +114,7 @@ func HarnessC10a() {
 		}
 		return has
 	}
-	if !check("start") {
+	if !check("start") && N > 0 {
 		return
 	}
 	for i := 0; i < S; i++ {
@@ -132,12 +132,14 @@ func HarnessC10a() {
 			return
 		}
 		verifAssert("C10.step.err", serr == nil)
-		if fwd {
+		if N == 0 {
+			pos = 0 // a tree without entries: every position is "no entry"
+		} else if fwd {
 			pos++
 		} else {
 			pos--
 		}
-		if !check("step") {
+		if !check("step") && N > 0 {
 			return
 		}
 	}
